@@ -95,7 +95,7 @@ def release(F, R, d):
     rm_call = d.inflight_calls(d.call, 'remove')
     R.ob('C11.release', '%s|call|no-remove-in-arms' % d.name, not rm_call,
          'the dispatcher arm releases a packet id itself (before/without the handler result)', d.call.loc(rm_call[0][0]) if rm_call else None)
-    helpers = [d.publish_fn, d.control] + ([d.control_pkt] if d.control_pkt else [])
+    helpers = [d.publish_fn, d.control] + ([d.control_pkt] if d.control_pkt and d.control_pkt is not d.control else [])
     for b in helpers:
         rms = d.inflight_calls(b, 'remove')
         edges = poll_ready_edges(b)
